@@ -41,16 +41,17 @@ def TestOneInput(data):
         k = fdp.ConsumeIntInRange(0, 5)
         if k == 0:
             cut = fdp.ConsumeIntInRange(1, max(1, len(damaged) - 1))
-            if c10._numeric_tail_cut(damaged, cut):
+            if c10._numeric_tail_cut(damaged, cut) or any(f[0] != "cut" for f in faults):
                 continue
             faults.append(["cut", cut])
             damaged = damaged[:cut]
             continue
         fault = [["del", [fdp.ConsumeIntInRange(0, 4000)]], ["dup", [fdp.ConsumeIntInRange(0, 4000)]], ["tok_bad", fdp.ConsumeIntInRange(0, 4000), fdp.ConsumeIntInRange(0, 9)],
                  ["tok_del", fdp.ConsumeIntInRange(0, 4000), 0], ["tok_ins", fdp.ConsumeIntInRange(0, 4000), 0]][k - 1]
-        if any(f[0] != "cut" and f[0] != fault[0] for f in faults):
-            # faults of different kinds can cancel into a SUBSTITUTION (delete one record line + duplicate another keeps every
-            # count and yields a well-formed file with other content): no count-based reader can notice - outside the fault model
+        if any(f[0] != fault[0] for f in faults):
+            # faults of different kinds can cancel into a SUBSTITUTION (delete one record line + duplicate another, cut the last line +
+            # duplicate another, delete a token + insert one: every count is kept and the file is well-formed with other content):
+            # no count-based reader can notice - outside the fault model.  A sequence consists of faults of ONE kind.
             continue
         d2 = c10.apply_fault(fmt, damaged, fault)
         if d2 is None:
